@@ -106,4 +106,6 @@ def run(ctx):
     rep.floor('R04.1', 'response leaves covered', n_resp, 8 * ns)
     rep.floor('R04.1', 'request leaves covered', n_req, 3 * ns)
     rep.floor('R04.4', 'reflection checks', n_refl, 2 * ns)
+    from rules import profile
+    profile.check(ctx, rep, 'R04.P', ['clog_finish', 'creg_finish'])
     return rep
